@@ -26,20 +26,21 @@ Record pf (s s' : state) : Prop := mkPf {
   pf_keys : keys s' = keys s;
   pf_now : now s' = now s;
   pf_rlen : List.length (reqs s') = List.length (reqs s);
+  pf_tl : List.length (toks s') = List.length (toks s);
   pf_out : drops s s'
 }.
 
 Lemma pf_refl s : pf s s.
 Proof. constructor; auto using drops_refl. Qed.
 Lemma pf_trans s1 s2 s3 : pf s1 s2 -> pf s2 s3 -> pf s1 s3.
-Proof. intros [A1 A2 A3 A4 A5 A6] [B1 B2 B3 B4 B5 B6]. constructor; try congruence. eapply drops_trans; eauto. Qed.
+Proof. intros [A1 A2 A3 A4 A5 A7 A6] [B1 B2 B3 B4 B5 B7 B6]. constructor; try congruence. eapply drops_trans; eauto. Qed.
 
 Lemma pf_upd_conn c f s : (forall cn, cvw (f cn) = cvw cn) -> pf s (upd_conn c f s).
 Proof. intros H. constructor; try reflexivity; [|apply drops_same; reflexivity]. unfold cvs, upd_conn. cbn [conns set_conns]. apply map_upd_id. exact H. Qed.
 Lemma pf_set_req r v s : pf s (set_req r v s).
 Proof. constructor; try reflexivity; [|apply drops_same; reflexivity]. unfold set_req. cbn [reqs set_reqs]. apply upd_nth_len. Qed.
 Lemma pf_upd_tok t f s : pf s (upd_tok t f s).
-Proof. destruct t; constructor; try reflexivity; apply drops_same; reflexivity. Qed.
+Proof. destruct t; constructor; try reflexivity; try (apply drops_same; reflexivity). cbn. apply upd_nth_len. Qed.
 Lemma pf_wake_req r s : pf s (wake_req r s). Proof. constructor; try reflexivity; apply drops_same; reflexivity. Qed.
 Lemma pf_unwake_req r s : pf s (unwake_req r s). Proof. constructor; try reflexivity; apply drops_same; reflexivity. Qed.
 Lemma pf_spawn t s : pf s (spawn t s). Proof. constructor; try reflexivity; apply drops_same; reflexivity. Qed.
